@@ -17,7 +17,9 @@ def one_case(args):
     rng = rng_for(seed, case)
     kw = {}
     r0 = rng.random()
-    if r0 < 0.06:
+    if case == 0:
+        kw = dict(target_packets=12000, hbfs=1, n_links=rng.choice([1, 3]))      # scale: one long conforming stream per run (> 100 reader batches, > 4096 packets per link)
+    elif r0 < 0.06:
         kw = dict(target_packets=rng.choice([100, 200, 300, 99, 101, 199, 201]), hbfs=1, n_links=rng.choice([1, 2, 4]))
     elif r0 < 0.10:
         kw = dict(n_links=rng.choice([12, 24]), hbfs=rng.choice([1, 2]))
